@@ -15,3 +15,4 @@ for P in "$@"; do
   echo "== check $P:"; (cd /verif && JAQALPAQ_REPO="$W" PYTHONPATH="$W/src" ./check "$P" 2>/dev/null | grep -v WARNING | tail -2; )
 done
 git checkout -- . ; git status --short | grep -v '^??' | head -3
+(cd /verif && PYTHONPATH=/verif /venv/bin/python -W ignore -m harness.effects_scan --emit >/dev/null 2>&1; PYTHONPATH=/verif /venv/bin/python -W ignore -m harness.lexer_extract >/dev/null 2>&1)
